@@ -37,6 +37,8 @@ def _rebuild_seq(v: t.Any, items: t.List[t.Any]) -> t.Any:
 def _rebuild_map(v: t.Any, items: t.List[t.Tuple[t.Any, t.Any]]) -> t.Any:
     if isinstance(v, MyMap):
         return MyMap(items)
+    if isinstance(v, collections.defaultdict):
+        return collections.defaultdict(v.default_factory, items)
     if isinstance(v, collections.OrderedDict):
         return collections.OrderedDict(items)
     if isinstance(v, types.MappingProxyType):
@@ -97,8 +99,10 @@ def mutate(draw: t.Any, v: t.Any, names: t.Sequence[str], depth: int = 0) -> t.A
         if seq:
             kind = draw(st.sampled_from(['list', 'tuple', 'myseq']))
             return {'list': list, 'tuple': tuple, 'myseq': MySeq}[kind](list(v))
-        kind = draw(st.sampled_from(['dict', 'mymap', 'odict', 'proxy']))
+        kind = draw(st.sampled_from(['dict', 'mymap', 'odict', 'proxy', 'ddict']))
         items = list(v.items())
+        if kind == 'ddict':
+            return collections.defaultdict(draw(st.sampled_from([list, int, dict])), items)
         if kind == 'mymap':
             return MyMap(items)
         if kind == 'odict':
@@ -164,9 +168,12 @@ def reshape_all(draw: t.Any, v: t.Any, depth: int = 0) -> t.Any:
         return {'list': list, 'tuple': tuple, 'myseq': MySeq}[kind](items)
     if tg.is_map(v):
         pairs = [(k, reshape_all(draw, x, depth + 1)) for (k, x) in v.items()]
-        kind = draw(st.sampled_from(['same', 'same', 'dict', 'mymap', 'odict', 'proxy']))
+        kind = draw(st.sampled_from(['same', 'same', 'dict', 'mymap', 'odict', 'proxy', 'ddict']))
         if kind == 'same':
             return _rebuild_map(v, pairs)
+        if kind == 'ddict':
+            # a mapping whose __getitem__ *inserts* missing keys: a converter must test membership, not index blindly
+            return collections.defaultdict(draw(st.sampled_from([list, int, dict])), pairs)
         if kind == 'mymap':
             return MyMap(pairs)
         if kind == 'odict':
